@@ -26,9 +26,16 @@ SEEDED = os.path.join(VERIF, "seeded")
 ALL_PROPS = ["C%02d" % i for i in range(1, 21)]
 
 
+KIND_DIRS = {
+    "seeded": os.path.join(VERIF, "seeded"),                 # changes written by independent sub-agents, with demonstrations
+    "own": os.path.join(VERIF, "selftest", "mutants"),       # the checker's own rule-by-rule seeds
+    "benign": os.path.join(VERIF, "selftest", "benign"),     # behaviour-preserving variants
+}
+
+
 def list_seeds(kind="seeded"):
     out = []
-    base = SEEDED if kind == "seeded" else os.path.join(SEEDED, "benign")
+    base = KIND_DIRS[kind]
     if not os.path.isdir(base):
         return out
     for n in sorted(os.listdir(base)):
@@ -95,7 +102,7 @@ def run_one(name, d, meta, props, repo="/repo"):
             "keys": {p: res[p][1][:6] for p in fired}, "infra_msg": {p: res[p][2] for p in infra}, "wall_s": round(time.time() - t0, 1)}
 
 
-def run(kind="seeded", only=None, props=None, jobs=4, repo="/repo"):
+def run(kind="seeded", only=None, props=None, jobs=4, repo="/repo", own_only=False):
     seeds = list_seeds(kind)
     if only:
         seeds = [s for s in seeds if s[0] in only]
@@ -104,6 +111,8 @@ def run(kind="seeded", only=None, props=None, jobs=4, repo="/repo"):
         futs = []
         for (n, d, meta) in seeds:
             ps = props or ALL_PROPS
+            if own_only and meta.get("property"):
+                ps = [meta["property"]]
             futs.append(ex.submit(run_one, n, d, meta, ps, repo))
         for f in futs:
             out.append(f.result())
@@ -112,20 +121,21 @@ def run(kind="seeded", only=None, props=None, jobs=4, repo="/repo"):
 
 def main():
     ap = argparse.ArgumentParser()
-    ap.add_argument("cmd", choices=["run", "benign"])
+    ap.add_argument("cmd", choices=["seeded", "own", "benign"])
+    ap.add_argument("--own-only", action="store_true", help="run only the check of the seed's own property")
     ap.add_argument("--only", default=None)
     ap.add_argument("--props", default=None)
     ap.add_argument("--jobs", type=int, default=4)
     a = ap.parse_args()
-    kind = "seeded" if a.cmd == "run" else "benign"
-    res = run(kind, a.only.split(",") if a.only else None, a.props.split(",") if a.props else None, a.jobs)
+    kind = a.cmd
+    res = run(kind, a.only.split(",") if a.only else None, a.props.split(",") if a.props else None, a.jobs, own_only=a.own_only)
     for r in res:
         if r["status"] != "ran":
             print("%-40s SKIPPED %s" % (r["name"], r["reason"]))
             continue
         own = r.get("property")
         mark = ""
-        if kind == "seeded":
+        if kind in ("seeded", "own"):
             mark = "DETECTED" if own in r["fired"] else ("detected-by-other" if r["fired"] else "MISSED")
         else:
             mark = "SILENT" if not r["fired"] else "FALSE-ALARM"
